@@ -14,6 +14,11 @@ CLAIMS={
    design="§3 C10, §2 R3/R4",
    note="Trusted: go/types+go/ssa; frozen tables c10_sites.json, c10_entries.json; owner path decided by C17. Path enumeration bound 4096 acyclic paths (exceeding it is reported as undecided = failure).",
    technique="static analysis: must-hold guard facts + bounded acyclic path enumeration with contradiction pruning over go/ssa; who-may-call over repo-CHA call graph"),
+ "C06":dict(
+   text="The vault equation is treated as a linear invariant TotalValue − cash − Σ(Borrowed + InterestStacked − InterestPaid) = 0. For every consensus-reachable function (not a hand list) the deltas it applies to the tracked fields (read-modify-write stores) and to the stablestake module's deposit-denom bank balance (transfers classified by account and denom provenance) are extracted from SSA; deltas on the same success paths must cancel symbolically (linear normal forms, e.g. repay = amount − interest); a plain overwrite of a tracked field, an update that does not reach its Set* call, a debt persisted from the read-only accrual preview, or a stale params write-back is a violation. Decides that every update preserves the equation on every path; does not bound rounding inside GetInterest.",
+   design="§3 C06, §2 R1/R6, Appendix C/D",
+   note="Trusted: go/types+go/ssa; bank keeper moves exactly the coins it is given; GetDebt declared as non-persisting helper (guarded by C06-debt-source). Genesis import is out of scope.",
+   technique="static analysis: symbolic delta extraction over go/ssa, linear normal forms, control-equivalence classes on success paths, provenance slices, call-graph summaries"),
 }
 NA={}
 checks=[]
